@@ -257,6 +257,51 @@ def run_one(m, known):
         shutil.rmtree(wd, ignore_errors=True)
 
 
+EQUIV = os.path.join(VERIF, 'mutants', 'automut_equivalent.json')
+
+
+def mkey(m):
+    """identity of a mutant that survives line moves: function + operator description"""
+    return '%s | %s' % (m[0], ' '.join(m[3].split()))
+
+
+def load_equivalent():
+    if not os.path.exists(EQUIV):
+        return {}
+    with open(EQUIV) as f:
+        return {e['mutant']: e['why'] for e in json.load(f)['equivalent']}
+
+
+def for_property(G, pid, cap=60, workers=3, seed=0):
+    """thorough tier: the auto-mutants inside the functions that carry obligations of `pid` (at most `cap`, chosen by `seed`).
+    Reported in the evidence; never changes the exit status (a survivor is a hint about contract strength, not a violation)."""
+    fids = {o['fid'] for o in G.obligations.values() if pid in o['tags']}
+    ms = [m for m in gen_mutants(G) if m[0] in fids]
+    random.Random(seed).shuffle(ms)
+    total = len(ms)
+    ms = ms[:cap]
+    from .checks import load_known
+    known = {k['obligation_id'] for k in load_known() if k.get('status') == 'open' and 'obligation_id' in k}
+    eq = load_equivalent()
+    t0 = time.time()
+    with ThreadPoolExecutor(max_workers=workers) as ex:
+        results = list(ex.map(lambda m: run_one(m, known), ms))
+    out = {'generated_in_these_functions': total, 'run': len(ms), 'killed': 0, 'killed_by_this_property': 0, 'undecided_ill_typed_or_anchor': 0,
+           'survived_equivalent': [], 'survived_unexplained': [], 'wall_s': 0}
+    for m, status, info in results:
+        if status == 'killed':
+            out['killed'] += 1
+            if pid in info.split(','):
+                out['killed_by_this_property'] += 1
+        elif status == 'undecided':
+            out['undecided_ill_typed_or_anchor'] += 1
+        else:
+            k = mkey(m)
+            (out['survived_equivalent'] if k in eq else out['survived_unexplained']).append(k if k not in eq else '%s :: %s' % (k, eq[k]))
+    out['wall_s'] = round(time.time() - t0, 1)
+    return out
+
+
 def main(argv):
     mx = None
     only = None
@@ -293,7 +338,7 @@ def main(argv):
     print('automut: %d mutants in %.0fs: %s' % (len(ms), time.time() - t0, tally))
     for m, status, info in sorted(results, key=lambda r: (r[1], r[0][1], r[0][2])):
         if status != 'killed':
-            print('%-9s %-40s %s:%d  %s  %s' % (status, m[0], m[1], m[2], m[3], info))
+            print('%-9s %-40s %s:%d  %s  %s' % (status, m[0], m[1], m[2], ' '.join(m[3].split()), info))
     return 0
 
 
